@@ -472,7 +472,41 @@ func storedAcross(c *explore.Ctx) {
 	}
 }
 
+// dvReuseSparse: one chunk, doc values on the even documents only; every order of <= 4 visits over
+// {0,1,2,3,4,6} after a warm-up visit (the reader's first call does not carry state over).
+func dvReuseSparse(c *explore.Ctx) {
+	scope := "DV-REUSE"
+	if !c.MineIdx(scope, 100) {
+		return
+	}
+	var batch []model.Doc
+	for i := 0; i < 8; i++ {
+		d := model.Doc{gen.IDField("s", i)}
+		if i%2 == 0 {
+			d = append(d, model.Field{N: "b", Len: 1, DV: true, Terms: []model.Term{{T: fmt.Sprintf("t%d", i), Freq: 1}}})
+		}
+		batch = append(batch, d)
+	}
+	seg, err := build(batch, 1025)
+	if err != nil {
+		c.Violate(scope, 100, sigOf("C13", "dv-build", "error: "+err.Error()), err.Error(), "sparse")
+		return
+	}
+	ls := model.Build(batch)
+	for _, o := range orders([]uint64{0, 1, 2, 3, 4, 6}, 4) {
+		c.Eval()
+		c.R.Distinct++
+		c.Nontrivial()
+		c.R.Transitions += int64(len(o))
+		if bad, _ := runDVSeq(seg, ls, []string{"b"}, o); bad != "" {
+			c.Violate(scope, 100, "C13/dv-reuse/wrong", bad, "DV-REUSE sparse: doc values on even documents only")
+			return
+		}
+	}
+}
+
 func dvReuse(c *explore.Ctx) {
+	dvReuseSparse(c)
 	type cs struct{ n, p int }
 	for ci, k := range []cs{{1030, 4}, {1030, 0}, {2049, 3}, {2049, 7}} {
 		scope := "DV-REUSE"
